@@ -102,3 +102,82 @@ func VerifC04DepositWithdraw() {
 		}
 	}
 }
+
+// inFlight: value queued in the pool or held in batches 1..2 of token A
+func (e *verifBridgeEnv) inFlight() sdkmath.Int {
+	total := sdkmath.ZeroInt()
+	for _, tx := range e.k.GetUnbatchedTransactions(e.ctx) {
+		total = total.Add(tx.Token.Amount).Add(tx.Fee.Amount)
+	}
+	for n := uint64(1); n <= 2; n++ {
+		if b := e.k.GetOutgoingTxBatch(e.ctx, verifTokenA, n); b != nil {
+			for _, tx := range b.Transactions {
+				total = total.Add(tx.Token.Amount).Add(tx.Fee.Amount)
+			}
+		}
+	}
+	return total
+}
+
+// VerifC04InFlightConservation: two withdrawal requests of one holder (symbolic amounts and fees),
+// a batch request with any element limit and base fee, then cancellation or observed execution of
+// the batch, then cancellation of whatever still waits in the pool. After every step the holder's
+// balance plus the value in flight (pool + batches) equals the initial balance minus what was
+// observed as executed; building or cancelling a batch moves nothing; every transfer that is not
+// executed stays refundable in full.
+func VerifC04InFlightConservation() {
+	e := verifBridgeState()
+	e.k.SetLastObservedBlockHeight(e.ctx, 1000, 90)
+	module := models.ModuleAddress(verifModule)
+	u1 := verifAmt("user1.balance", 100)
+	e.bank.SetBalance(verifUser1, verifBase, u1)
+	e.bank.SetBalance(module, e.bridgeDenom, u1) // escrow == base supply
+	amounts := [2]sdkmath.Int{verifAmt("amount1", 64), verifAmt("amount2", 64)}
+	fees := [2]sdkmath.Int{verifSmallFee("fee1"), verifSmallFee("fee2")}
+	rt.Assume(rt.And(amounts[0].IsPositive(), amounts[1].IsPositive()))
+	rt.Assume(u1.GTE(amounts[0].Add(amounts[1]).Add(fees[0]).Add(fees[1])))
+	e.store().Set(types.KeyLastTxPoolID, sdk.Uint64ToBigEndian(1))
+	for i := 0; i < 2; i++ {
+		if _, err := e.k.AddToOutgoingPool(e.ctx, verifUser1, verifAddrB, sdk.NewCoin(verifBase, amounts[i]), sdk.NewCoin(verifBase, fees[i])); err != nil {
+			rt.Assert(false, "a send of up to the holder's balance is never refused")
+			return
+		}
+	}
+	rt.Cover("state-built")
+	hold := func() sdkmath.Int { return e.bank.Balance(verifUser1, verifBase) }
+	rt.Assert(hold().Add(e.inFlight()).Equal(u1), "holdings + in flight == initial holdings after the sends")
+
+	maxEl := uint(1 + rt.Choose("maxElements", 2))
+	baseFee := sdkmath.NewInt([]int64{0, 3}[rt.Choose("baseFee", 2)])
+	held := hold()
+	executed := sdkmath.ZeroInt()
+	b, err := e.k.BuildOutgoingTxBatch(e.ctx, verifTokenA, verifAddrB, maxEl, sdkmath.ZeroInt(), baseFee)
+	rt.Assert(rt.And(hold().Equal(held), held.Add(e.inFlight()).Equal(u1)), "a batch request (granted or refused) creates or destroys nothing")
+	if err == nil {
+		rt.Cover("batch-built")
+		if rt.Bool("executed") {
+			for _, tx := range b.Transactions {
+				executed = executed.Add(tx.Token.Amount).Add(tx.Fee.Amount)
+			}
+			e.k.OutgoingTxBatchExecuted(e.ctx, verifTokenA, b.BatchNonce)
+			rt.Cover("batch-executed")
+		} else {
+			if e.k.CancelOutgoingTxBatch(e.ctx, verifTokenA, b.BatchNonce) != nil {
+				rt.Assert(false, "an existing batch can be cancelled")
+			}
+			rt.Cover("batch-cancelled")
+		}
+		rt.Assert(rt.And(hold().Equal(held), held.Add(e.inFlight()).Equal(u1.Sub(executed))), "holdings + in flight == initial - executed")
+	}
+	// whatever was not executed is still owed to its creator and can be taken back in full
+	for id := uint64(1); id <= 2; id++ {
+		if _, gerr := e.k.GetUnbatchedTxById(e.ctx, id); gerr == nil {
+			if _, rerr := e.k.RemoveFromOutgoingPoolAndRefund(e.ctx, id, verifUser1); rerr != nil {
+				rt.Assert(false, "a pooled transfer can be cancelled by its creator")
+			}
+		}
+	}
+	rt.Assert(e.inFlight().IsZero(), "nothing is left in flight once everything is executed or cancelled")
+	rt.Assert(hold().Equal(u1.Sub(executed)), "the holder ends with the initial holdings minus exactly what was executed")
+	rt.Assert(e.bank.Balance(module, e.bridgeDenom).Equal(e.bank.Supply(verifBase)), "escrow of the bridge denomination == base supply")
+}
